@@ -1696,6 +1696,32 @@ theorem reach_closed (G : ι → ι → ℝ) (P : ι → Prop) (s : ι) (hs : P 
     ∀ w, 1 ≤ sdist G s w → P w :=
   fun w hw => walk_closed G P s hs hcl (sdist G s w) w (walk_sdist G s w hw)
 
+/-- `lemma_nonneg_sum_zero(M, n)`, first conjunct: in an entrywise non-negative matrix a column whose sum is 0 consists of zeros -/
+theorem colsum_zero_of_nonneg (M : ι → ι → ℝ) (hM : ∀ x y, 0 ≤ M x y) (y : ι) (h : csum M y = 0) : ∀ x, M x y = 0 := by
+  intro x
+  unfold csum at h
+  exact (Finset.sum_eq_zero_iff_of_nonneg (fun x _ => hM x y)).mp h x (Finset.mem_univ x)
+
+/-- `lemma_nonneg_sum_zero(M, n)`, second conjunct: a row whose sum is 0 consists of zeros -/
+theorem rowsum_zero_of_nonneg (M : ι → ι → ℝ) (hM : ∀ x y, 0 ≤ M x y) (x : ι) (h : sum1 (M x) = 0) : ∀ y, M x y = 0 := by
+  intro y
+  unfold sum1 at h
+  exact (Finset.sum_eq_zero_iff_of_nonneg (fun y _ => hM x y)).mp h y (Finset.mem_univ y)
+
+/-- `lemma_walk_ends(G, n)`, first half (SMT Skolem function `walkout`): a walk of `m ≥ 1` connections from `x` starts with a
+connection out of `x` -/
+theorem walk_first_edge (G : ι → ι → ℝ) (x y : ι) (m : ℕ) (hm : 1 ≤ m) (h : walk G x y m) : ∃ z, G x z ≠ 0 := by
+  obtain ⟨j, rfl⟩ : ∃ j, m = j + 1 := ⟨m - 1, by omega⟩
+  obtain ⟨z, hz, _⟩ := (walk_succ_prefix G x y j).mp h
+  exact ⟨z, hz⟩
+
+/-- `lemma_walk_ends(G, n)`, second half (SMT Skolem function `walkin`): a walk of `m ≥ 1` connections to `y` ends with a
+connection into `y` -/
+theorem walk_last_edge (G : ι → ι → ℝ) (x y : ι) (m : ℕ) (hm : 1 ≤ m) (h : walk G x y m) : ∃ z, G z y ≠ 0 := by
+  obtain ⟨j, rfl⟩ : ∃ j, m = j + 1 := ⟨m - 1, by omega⟩
+  obtain ⟨z, _, hz⟩ := (walk_succ G x y j).mp h
+  exact ⟨z, hz⟩
+
 end bfs
 
 -- NOT PROVED HERE: nothing was left out; every quantified fact of `spec_axioms()` and every `lemma_*` instance of
@@ -1719,5 +1745,7 @@ end bfs
 --  `mpw_nonneg`, `mpw_walk` (support of a power of a non-negative matrix = walks): all proved.)
 -- (seventh batch: `sdist_split_suffix` (split clause of `lemma_walks` with the suffix conjunct), `walk_closed`, `reach_closed` for
 --  `lemma_reach_closed`: all proved.)
+-- (eighth batch, in `section bfs`: `colsum_zero_of_nonneg`, `rowsum_zero_of_nonneg` for `lemma_nonneg_sum_zero`; `walk_first_edge`,
+--  `walk_last_edge` for `lemma_walk_ends`: all proved.)
 
 end VerifLemmas
